@@ -281,7 +281,7 @@ func gInput(series []seriesIn) string {
 	for i, s := range series {
 		cs := make([]string, len(s.Chunks))
 		for j, c := range s.Chunks {
-			cs[j] = fmt.Sprintf("mkCI %s %s %s %s", gallina.Z(c.Min), gallina.Z(c.Max), gallina.N(uint64(c.Enc)), pk(c.Data))
+			cs[j] = fmt.Sprintf("mkCI %s %s %s %s", gz(c.Min), gz(c.Max), gn(uint64(c.Enc)), pk(c.Data))
 		}
 		it[i] = fmt.Sprintf("mkSI %s %s", gLabels(s.Labels), gallina.List(cs))
 	}
@@ -670,12 +670,12 @@ func main() {
 		Footer:   gallina.StdFooter}
 	rn := &runner{f: f, meta: meta, cf: cf, scratch: scratch, altLeft: f.Count(2200, 60000)}
 
-	nDirect := f.Count(24, 120)
+	nDirect := f.Count(21, 120)
 	rn.perBlock = rn.altLeft / (f.Count(14, 30) + 5)
 	nSweep := f.Count(14, 30) // small blocks whose every entry/record byte is altered
 	nWide := f.Count(0, 6) // the card blocks cover > 32 values in the quick tier
 	nCard := f.Count(3, 9)
-	nBW := f.Count(8, 30)
+	nBW := f.Count(7, 30)
 	nCompact := f.Count(4, 20)
 	ci := 0
 	next := func() (*gen.Rand, string, int) {
